@@ -199,16 +199,18 @@ Proof.
   cbn [mapM]. unfold render_edge at 1. cbn [e_from e_cond]. rewrite Hf0, Emore, Hm, Hl'.
   cbn [i_type].
   set (e' := mkIE f0 (with_name (e_cond e0) nm)).
-  set (i' := mkI (r_type r) id (e' :: es') true m l (r_vars r) (r_save r) (r_objid r) (r_noresp r)
+  (* the injected first edge survives the read, whatever the tree drops *)
+  destruct (drop_padding_first e' es') as [more' Hdp]. rewrite Hdp.
+  set (i' := mkI (r_type r) id (e' :: more') true m l (r_vars r) (r_save r) (r_objid r) (r_noresp r)
                  (r_url r) (r_headers r) (r_dsheet r) (r_drow r) (r_targs r)).
   assert (Hstep : step_row s i' = Err ECatName).
   { unfold visit_row in Hst. rewrite Hi0 in Hst. subst i. cbn [i_type] in Hst.
-    assert (Hs : exists s', step_row s (mkI (r_type r) id (mkIE f0 (e_cond e0) :: es') true m l (r_vars r) (r_save r) (r_objid r)
+    assert (Hs : exists s', step_row s (mkI (r_type r) id (drop_padding_edges (mkIE f0 (e_cond e0) :: es')) true m l (r_vars r) (r_save r) (r_objid r)
                                           (r_noresp r) (r_url r) (r_headers r) (r_dsheet r) (r_drow r) (r_targs r)) = Ok s').
     { destruct (r_type r); try discriminate;
         (match type of Hst with (match ?X with Ok _ => _ | Err _ => _ end) = _ => destruct X as [s'|]; [eauto|discriminate] end). }
     destruct Hs as [s' Hs].
     apply step_row_node_inv in Hs as (Ha & s1 & x & Hnode); [|exact Hn|reflexivity].
-    apply (step_row_node_long s i' e' es' s1 x); try reflexivity; try assumption. }
+    apply (step_row_node_long s i' e' more' s1 x); try reflexivity; try assumption. }
   destruct (r_type r); try discriminate; rewrite Hstep; reflexivity.
 Qed.
